@@ -132,16 +132,13 @@ func runC14(ctx *h.Ctx) int {
 		if !res.OK() {
 			k.Count("rejected", 1)
 			k.Count("rejected: "+rejectFamily(res.ErrString()), 1)
-			if rerr == nil && !spec.AnyUnmatched(prog, prog.Switches) {
-				debugReject(pr.Src, res.ErrString())
-				k.Count("unexpected_rejections", 1)
-				// every generated list is valid (multipliers 1..9999, every poryswitch has a matching case):
-				// rejecting it emits nothing at all
-				k.Violation("valid-list-rejected", fmt.Sprintf("a file of valid movement / mart lists (all multipliers within 1..9999) is rejected: %s", res.ErrString()), nil)
-			}
+			// every generated list is valid (multipliers 1..9999): the only rejection the generator can foresee is a
+			// poryswitch without matching case; rejecting a valid list emits nothing at all
+			rejectedValid(k, prog, res, true)
 			return
 		}
 		if rerr != nil {
+			acceptedUnmatched(k)
 			return
 		}
 		k.Count("accepted", 1)
